@@ -307,7 +307,7 @@ func checkC11(c *BatchCase) *ev.Failure {
 			}
 		}
 	}
-	deadline := time.Now().Add(2 * time.Second)
+	deadline := time.Now().Add(20 * time.Second)
 	for amrGoroutines() > 0 {
 		if time.Now().After(deadline) {
 			return ev.Failf("leak", "goroutines of AsyncMapReduce remain after Query returned")
